@@ -312,6 +312,42 @@ def stream_loss_rules(fx, v, prop='C02', rid='R-DOM'):
             v.check(ok, rid, '%s::operator()(%s)%s [%s]' % (cls, tag, f.inst()[:40], f.tu),
                     'a reconnect-worthy transport error starts async_reconnect and resumes at on_reconnect',
                     key=prop + ':R-DOM:%s:reconnect-trigger' % cls, where=f.file)
+    # a reconnect that went through (async_reconnect answered success) is reported as try_again, never as success: the
+    # callers (assemble_op, async_sender) resend and re-check the session only on try_again; and try_again is reported by
+    # nothing but that continuation (an unrecoverable error answered try_again makes the caller resend on the same dead stream)
+    for cls, tag in (('read_op', 'on_reconnect'), ('write_op', 'on_reconnect')):
+        for f in fx.functions(cls=cls, name='operator()', tag=tag):
+            v.saw(f)
+            bad = None
+            n_succ = 0
+            for pi, p in enumerate(op_paths(fx, f)):
+                if not p.ec_may_be_success():
+                    continue
+                n_succ += 1
+                renamed = False
+                for it in p.evs():
+                    x = it.x
+                    if isinstance(x, dict) and x.get('k') in ('call', 'assign') and (x.get('op') == '=' or callee_name(x) == 'operator=') \
+                            and contains(x, lambda m: m.get('k') == 'ref' and m.get('dk') == 'enum' and m.get('n') == 'try_again'):
+                        renamed = True
+                for comp in p.entered('complete'):
+                    cls_ = ec_arg_class(p, p.arg(comp, 0))
+                    if cls_ == ('literal', 'try_again') or (cls_[0] == 'param' and renamed):
+                        continue
+                    bad = 'path %d: a successful reconnect is completed with %s' % (pi, cls_)
+            v.check(bad is None and n_succ > 0, rid, '%s::operator()(on_reconnect)%s:success-is-try_again [%s]' % (cls, f.inst()[:30], f.tu),
+                    'a reconnect that went through is reported to the caller as try_again (which makes it resend and re-check the session)'
+                    if bad is None else bad, key=prop + ':R-DOM:%s:reconnect-reported-as-try_again' % cls, where=f.file)
+    for cls, tag in (('read_op', 'on_read'), ('write_op', 'on_write')):
+        for f in fx.functions(cls=cls, name='operator()', tag=tag):
+            bad = None
+            for pi, p in enumerate(op_paths(fx, f)):
+                for comp in p.entered('complete'):
+                    if comp.fn.cls == cls and ec_arg_class(p, p.arg(comp, 0)) == ('literal', 'try_again'):
+                        bad = 'path %d reports try_again although no reconnect was made' % pi
+            v.check(bad is None, rid, '%s::operator()(%s)%s:try_again-only-after-reconnect [%s]' % (cls, tag, f.inst()[:30], f.tu),
+                    'the I/O continuation itself never reports try_again (only the reconnect continuation does)' if bad is None else bad,
+                    key=prop + ':R-DOM:%s:try_again-without-reconnect' % cls, where=f.file)
     # a stream operation cancelled because its stream was REPLACED (reconnect finished while it was pending) on a client
     # that is still open is not a cancellation of the caller's request: both siblings go through async_reconnect (which
     # answers try_again); completing with operation_aborted there ends un-cancelled requests and nothing re-sends them
